@@ -5,6 +5,11 @@ package flushable
 // Machine-checked contracts for /verif (read as text by the VC generator; no code).
 //
 // ghost state (declared first; meaning given where it is used)
+//@ // lock discipline (C28, race freedom of the flushable store): the overlay tree pointer may only be read while the
+//@ // store's lock is held and only be replaced while it is held for writing; every function returns with the locks it
+//@ // was called with (obligations lock.guard / lock.balanced, generated for every function of this file's claims)
+//@ guarded flushableReader.modified by lock
+//@ guarded Flushable.sizeEstimation by flushableReader.lock
 //@ ghost nOnDropF int
 //@ ghost gProdN int
 //@ ghost gProdR0 kvdb.Store
@@ -46,6 +51,7 @@ package flushable
 //@ // put / delete: exactly the entry of string(key) changes: it now holds a private non-nil copy of the value / a tombstone
 //@ func (*Flushable).put
 //@   requires finv(w) && value != nil
+//@   requires [locked] wlocked(w.lock)
 //@   modifies tHas[w.flushableReader.modified], tVal[w.flushableReader.modified], tN[w.flushableReader.modified], tKey[w.flushableReader.modified], tNode[w.flushableReader.modified], nOwner[*], nIdx[*], all(redblacktree.Node).Key, all(redblacktree.Node).Value, deref(w.sizeEstimation)
 //@   ensures  [inv] finv(w)
 //@   ensures  [set] ovHas(w.flushableReader.modified, key) && !ovDel(w.flushableReader.modified, key) && arrfresh(ovVal(w.flushableReader.modified, key), old(_alloc)) && len(ovVal(w.flushableReader.modified, key)) == len(value) && forall(i, 0, len(value), ovVal(w.flushableReader.modified, key)[i] == value[i])
@@ -53,6 +59,7 @@ package flushable
 //@   ensures  [count] tN[w.flushableReader.modified] == old(tN[w.flushableReader.modified]) + ite(old(ovHas(w.flushableReader.modified, key)), 0, 1)
 //@ func (*Flushable).delete
 //@   requires finv(w)
+//@   requires [locked] wlocked(w.lock)
 //@   modifies tHas[w.flushableReader.modified], tVal[w.flushableReader.modified], tN[w.flushableReader.modified], tKey[w.flushableReader.modified], tNode[w.flushableReader.modified], nOwner[*], nIdx[*], all(redblacktree.Node).Key, all(redblacktree.Node).Value, deref(w.sizeEstimation)
 //@   ensures  [inv] finv(w)
 //@   ensures  [set] ovDel(w.flushableReader.modified, key)
@@ -94,6 +101,7 @@ package flushable
 //@ // dropping the unflushed writes empties the overlay (the view is the underlying store's again)
 //@ func (*Flushable).dropNotFlushed
 //@   requires w != nil && w.flushableReader.modified != nil && w.sizeEstimation != nil
+//@   requires [locked] wlocked(w.lock)
 //@   modifies tHas[w.flushableReader.modified], tVal[w.flushableReader.modified], tN[w.flushableReader.modified], tKey[w.flushableReader.modified], tNode[w.flushableReader.modified], deref(w.sizeEstimation)
 //@   ensures  tN[w.flushableReader.modified] == 0 && forall(k string, !tHas[w.flushableReader.modified][k]) && ovOK(w.flushableReader.modified) && deref(w.sizeEstimation) == 0
 //@ func (*Flushable).DropNotFlushed
@@ -201,6 +209,7 @@ package flushable
 //@   ((v == nil && gWrOpKind[j] == 2) || (v != nil && gWrOpKind[j] == 1 && gWrOpVal[j] == unbox(v, "[]byte")))
 //@ func (*Flushable).flush
 //@   requires w != nil && w.underlying != nil && w.sizeEstimation != nil && (w.flushableReader.modified != nil ==> ovOK(w.flushableReader.modified))
+//@   requires [locked] wlocked(w.lock)
 //@   modifies tHas[w.flushableReader.modified], tVal[w.flushableReader.modified], tN[w.flushableReader.modified], tKey[w.flushableReader.modified], tNode[w.flushableReader.modified], deref(w.sizeEstimation), gBatcherNewBatchN, gBatcherNewBatchRecv, gBatcherNewBatchR0, gBatchValueSizeN, gBatchValueSizeRecv, gBatchValueSizeR0, gBatchWriteN, gBatchWriteRecv, gBatchWriteR0, gBatchResetN, gBatchResetRecv, gKeyValueWriterPutN, gKeyValueWriterPutRecv, gKeyValueWriterPutA0, gKeyValueWriterPutA1, gKeyValueWriterPutR0, gKeyValueWriterDeleteN, gKeyValueWriterDeleteRecv, gKeyValueWriterDeleteA0, gKeyValueWriterDeleteR0, gWrOpN, gWrOpKind[*], gWrOpRecv[*], gWrOpKey[*], gWrOpVal[*], gWrOpErr[*]
 //@   ensures  [wf] gWrOpN >= old(gWrOpN) && gBatchWriteN >= old(gBatchWriteN) && (w.flushableReader.modified != nil ==> ovOK(w.flushableReader.modified))
 //@   ensures  [closed] w.flushableReader.modified == nil ==> result == errClosed && gWrOpN == old(gWrOpN) && gBatchWriteN == old(gBatchWriteN)
